@@ -262,8 +262,14 @@ func (g *generator) genBlock() *Step {
 	} else if r.Chance(0.1) {
 		st.Absent = []int{r.Intn(8)}
 	}
-	if r.Chance(0.05) {
-		st.Evidence = [][3]int64{{int64(r.Intn(8)), int64(r.Range(0, 3)), int64(r.Range(0, 7200))}}
+	pEv := 0.05
+	if g.s.prop == "C25" {
+		pEv = 0.15
+	}
+	if r.Chance(pEv) {
+		// double-sign evidence names a validator of the height it is about, which may be several
+		// blocks back: the culprit may have been jailed or have left the set since
+		st.Evidence = [][3]int64{{int64(r.Intn(8)), int64([]int{0, 1, 2, 3, 6, 10}[r.Intn(6)]), int64(r.Range(0, 7200))}}
 	}
 	if r.Chance(0.15) {
 		st.Shuffle = int64(r.Range(1, 7))
@@ -408,7 +414,8 @@ func (g *generator) genTx() *Step {
 		if exists {
 			st.Amount = cur + []int64{0, 0, 1, 1_000_000, 3_000_000, -1, -1_000_000}[r.Intn(7)]
 		} else {
-			st.Amount = c.StakeMinimum + []int64{0, 1_000_000, 5_000_000, -1, 20_000_000}[r.Intn(5)]
+			// (incl. stakes a downtime slash leaves above the minimum and a double-sign slash does not)
+			st.Amount = c.StakeMinimum + []int64{0, 1_000_000, 5_000_000, -1, 20_000_000, 300_000, 600_000}[r.Intn(7)]
 		}
 		st.Chains = g.genChains(int(c.NodeMaxChains))
 		st.Output = outputOf(st.From)
@@ -418,16 +425,49 @@ func (g *generator) genTx() *Step {
 		if r.Chance(0.05) {
 			st.Output = -1
 		}
-		if r.Chance(0.25) {
-			n := r.Range(1, 4)
-			total := 0
-			for i := 0; i < n; i++ {
-				share := r.Range(1, 40)
-				if total+share > 100 && r.Chance(0.9) {
-					break
+		pDel := 0.25
+		if s.prop == "C26" {
+			pDel = 0.6
+		}
+		if r.Chance(pDel) {
+			keys := g.allKeys()
+			perm := r.Perm(len(keys))
+			take := func(i int) int { return keys[perm[i%len(perm)]] }
+			switch r.Weighted([]int{40, 25, 15, 10, 10}) {
+			case 0: // a few arbitrary shares, usually summing to less than 100
+				n := r.Range(1, 4)
+				total := 0
+				for i := 0; i < n; i++ {
+					share := r.Range(1, 40)
+					if total+share > 100 && r.Chance(0.9) {
+						break
+					}
+					total += share
+					st.Delegators = append(st.Delegators, [2]int{take(i), share})
 				}
-				total += share
-				st.Delegators = append(st.Delegators, [2]int{g.pick(g.allKeys()), share})
+			case 1: // shares summing to exactly 100 over 2-5 delegators (nothing left for the output address but rounding)
+				n := r.Range(2, 5)
+				left := 100
+				for i := 0; i < n; i++ {
+					share := left
+					if i < n-1 {
+						share = r.Range(1, left-(n-1-i))
+					}
+					left -= share
+					st.Delegators = append(st.Delegators, [2]int{take(i), share})
+				}
+			case 2: // many small delegators
+				n := r.Range(8, 25)
+				if n > len(keys) {
+					n = len(keys)
+				}
+				for i := 0; i < n; i++ {
+					st.Delegators = append(st.Delegators, [2]int{take(i), r.Range(1, 4)})
+				}
+			case 3: // one delegator takes everything
+				st.Delegators = append(st.Delegators, [2]int{take(0), 100})
+			case 4: // edge shares the message validation has to judge (0, over 100 in total)
+				st.Delegators = append(st.Delegators, [2]int{take(0), []int{0, 101, 60}[r.Intn(3)]}, [2]int{take(1), []int{50, 41, 1}[r.Intn(3)]})
 			}
 		}
 		// who signs: operator or (current) output address
